@@ -23,7 +23,7 @@ pub struct Case {
   /// piece length spelled with a unit (`16KiB`) instead of plain bytes
   pub unit: bool,
   /// how the same request is written: bit 0 each allowed lint twice, 1 all lints after a single `--allow`, 2 lints in
-  /// descending order, 3 length with a fraction (`16383.5` is 16383), 4 unit with the Kelvin sign for `K`, 5 `--dry-run`,
+  /// descending order, 3 length with a fraction (`16383.5` is 16383), 4 unit in upper case, 5 `--dry-run`,
   /// 6 global `--quiet`, 7 an announce URL without a host, 8 content far larger than the piece length
   pub style: u32,
 }
@@ -51,7 +51,7 @@ impl Case {
       return format!("{}.5", self.p);
     }
     if self.style & 16 != 0 && self.p != 0 && self.p % 1024 == 0 {
-      return format!("{}\u{212a}iB", self.p >> 10);
+      return format!("{}KIB", self.p >> 10);
     }
     if self.unit && self.p != 0 && self.p % 1024 == 0 {
       if self.p % (1 << 20) == 0 { format!("{}MiB", self.p >> 20) } else { format!("{}KiB", self.p >> 10) }
